@@ -171,26 +171,58 @@ def names_in(e: ast.AST) -> Set[str]:
     return {x.id for x in ast.walk(e) if isinstance(x, ast.Name)}
 
 
-def depends_on(du: DefUse, n: Node, expr: ast.AST, _seen=None, depth: int = 0) -> Set[str]:
+def depends_on(du: DefUse, n: Node, expr: ast.AST, _seen=None, depth: int = 0, path=()) -> Set[str]:
     """Transitive closure of the names (parameters and attribute roots) *expr* at *n* is
     data-dependent on.  Returns the set of parameter names plus "self.<attr>" reads plus
-    "<call:NAME>" markers for calls whose result flows in."""
+    "<call:NAME>" markers for calls whose result flows in.
+
+    *path* selects a component of the value (tuple index / record field): a tuple display, a NamedTuple or
+    dataclass constructor call contributes only the selected element."""
     out: Set[str] = set()
     _seen = _seen if _seen is not None else set()
+    path = tuple(path)
     if depth > 12:
         return out
-    for x in ast.walk(expr):
+    # component selection
+    if path:
+        if isinstance(expr, (ast.Tuple, ast.List)) and isinstance(path[0], int) and 0 <= path[0] < len(expr.elts) \
+                and not any(isinstance(x, ast.Starred) for x in expr.elts):
+            return depends_on(du, n, expr.elts[path[0]], _seen, depth + 1, path[1:])
+        if isinstance(expr, ast.Call) and RECORD_FIELDS is not None:
+            arg = _record_arg(du, Origin("expr", expr, (), n), path[0])
+            if arg is not None:
+                return depends_on(du, n, arg, _seen, depth + 1, path[1:])
+        if isinstance(expr, ast.Name):
+            pass     # carried through the definitions below
+        else:
+            path = ()
+    if isinstance(expr, ast.Attribute) and isinstance(expr.value, ast.Name) and RECORD_FIELDS is not None and not path:
+        base = origins(du, n, expr.value)
+        if base and all(_record_arg(du, o, expr.attr) is not None for o in base):
+            for o in base:
+                out |= depends_on(du, o.node, _record_arg(du, o, expr.attr), _seen, depth + 1)
+            return out
+    for x in ([expr] if isinstance(expr, ast.Name) and path else ast.walk(expr)):
         if isinstance(x, ast.Attribute):
             d = dotted(x)
             if d and d.startswith("self."):
                 out.add(d)
+            if isinstance(x.value, ast.Name) and RECORD_FIELDS is not None and x is not expr:
+                base = origins(du, n, x.value)
+                if base and all(_record_arg(du, o, x.attr) is not None for o in base):
+                    # handled as a component of the record, not as a use of the whole record
+                    for o in base:
+                        out |= depends_on(du, o.node, _record_arg(du, o, x.attr), _seen, depth + 1)
+                    continue
         if isinstance(x, ast.Call):
             d = dotted(x.func)
             if d:
                 out.add("<call:%s>" % d)
         if isinstance(x, ast.Name) and isinstance(x.ctx, ast.Load):
+            if RECORD_FIELDS is not None and not path and x is not expr and _is_record_base_of_attr(expr, x, du, n):
+                continue
             for d in du.reaching(n, x.id):
-                key = (id(d), x.id)
+                key = (id(d), x.id, path)
                 if key in _seen:
                     continue
                 _seen.add(key)
@@ -207,10 +239,51 @@ def depends_on(du: DefUse, n: Node, expr: ast.AST, _seen=None, depth: int = 0) -
                     out.add(d.name)
                 elif d.value is not None and d.node is not None and not isinstance(d.value, (ast.FunctionDef, ast.AsyncFunctionDef, ast.ClassDef, ast.Import, ast.ImportFrom)):
                     v = d.value.value if isinstance(d.value, ast.AugAssign) else d.value
-                    out |= depends_on(du, d.node, v, _seen, depth + 1)
+                    sub = (tuple(d.index) + path) if d.kind == "assign" else ()
+                    out |= depends_on(du, d.node, v, _seen, depth + 1, sub)
                     if isinstance(d.value, ast.AugAssign):
                         out |= depends_on(du, d.node, d.value.target, _seen, depth + 1)
     return out
+
+
+def _is_record_base_of_attr(expr: ast.AST, name_node: ast.Name, du, n) -> bool:
+    """*name_node* occurs in *expr* only as the base of a record-field access that was resolved component-wise."""
+    for x in ast.walk(expr):
+        if isinstance(x, ast.Attribute) and x.value is name_node:
+            base = origins(du, n, name_node)
+            return bool(base) and all(_record_arg(du, o, x.attr) is not None for o in base)
+    return False
+
+
+RECORD_FIELDS = None   # set by core: (function, cfg node, call ast) -> ordered field names of the NamedTuple/dataclass constructed, or None
+
+
+def _record_arg(du, o, field):
+    """The argument expression that fills *field* (name or position) in the record constructor call origin *o*."""
+    if o.kind != "expr" or o.path or not isinstance(o.leaf, ast.Call):
+        return None
+    try:
+        fields = RECORD_FIELDS(du.cfg.fi, o.node, o.leaf)
+    except Exception:
+        fields = None
+    if not fields:
+        return None
+    c = o.leaf
+    if any(isinstance(a, ast.Starred) for a in c.args) or any(k.arg is None for k in c.keywords):
+        return None
+    if isinstance(field, int):
+        if not (0 <= field < len(fields)):
+            return None
+        field = fields[field]
+    if field not in fields:
+        return None
+    i = fields.index(field)
+    if i < len(c.args):
+        return c.args[i]
+    for k in c.keywords:
+        if k.arg == field:
+            return k.value
+    return None
 
 
 class Origin:
@@ -264,6 +337,24 @@ def origins(du: DefUse, n: Node, e: ast.AST, path=(), _seen=None, depth: int = 0
         return out
     if isinstance(e, ast.Subscript) and isinstance(e.slice, ast.Constant) and isinstance(e.slice.value, int):
         return origins(du, n, e.value, (e.slice.value,) + path, _seen, depth + 1)
+    if isinstance(e, ast.Attribute) and isinstance(e.value, ast.Name) and RECORD_FIELDS is not None:
+        # field of a NamedTuple / dataclass built in this function: `p = Rec(a, b)` ... `p.b`
+        base = origins(du, n, e.value, (), _seen, depth + 1)
+        out = []
+        for o in base:
+            arg = _record_arg(du, o, e.attr)
+            if arg is None:
+                out = None
+                break
+            out.extend(origins(du, o.node, arg, path, _seen, depth + 1))
+        if out:
+            return out
+    if isinstance(e, ast.Call) and path and isinstance(path[0], int) and RECORD_FIELDS is not None:
+        # tuple-unpacking / indexing of a NamedTuple constructor call
+        o = Origin("expr", e, (), n)
+        arg = _record_arg(du, o, path[0])
+        if arg is not None:
+            return origins(du, n, arg, path[1:], _seen, depth + 1)
     if isinstance(e, (ast.Tuple, ast.List)) and path and isinstance(path[0], int) and 0 <= path[0] < len(e.elts) \
             and not any(isinstance(x, ast.Starred) for x in e.elts):
         return origins(du, n, e.elts[path[0]], path[1:], _seen, depth + 1)
